@@ -64,23 +64,30 @@ MCCall(call) ==
         /\ Canon => /\ (call.m \notin GroupMethods => members = {"owner"})
                     /\ (call.m \notin {"SetCursor", "FetchCursor"} => cursors["s1"] = -1)
      \/ phase = 2 /\ call = last.call /\ phase' = 5      \* edited, not yet reloaded: the loaded policy still decides
-     \/ phase = 3 /\ call = last.call /\ phase' = 4
+     \/ phase \in {3, 9} /\ call = last.call /\ phase' = 4
   /\ (call.s = CursorsStream) => (call.m \in HarmlessOnSys \/ Unauthorised(EffPolicy, call))
   /\ (call.cred # "verified") => policy = Entries     \* a caller without verified identity against the full policy
   /\ DoCall(call)
-  /\ last' = [a |-> "Call", call |-> call]
+  /\ last' = [a |-> "Call", call |-> call, held |-> (call.m = "Subscribe" /\ obs'.res = "Ok")]
 
 \* DeepReload = FALSE: the edit / reload / call-again tail only from the empty and the full policy
 \* the file disappears, a reload fails, then the corrected file is written and reloaded
 MCBreak ==
   /\ phase = 1 /\ phase' = 6
   /\ enforcer /\ (DeepReload \/ policy = {} \/ policy = Entries)
-  /\ DoBreakFile
-  /\ last' = [a |-> "BreakFile", call |-> last.call]
+  /\ \E kind \in {"removed", "torn"} :
+       /\ DoBreakFile(IF kind = "torn" THEN Toggle(policyFile, EntryOf(last.call)) ELSE policyFile)
+       /\ last' = [a |-> "BreakFile", call |-> last.call, held |-> last.held, kind |-> kind]
 MCReloadFail ==
   /\ phase = 6 /\ phase' = 7
   /\ DoReload
-  /\ last' = [a |-> "Reload", call |-> last.call]
+  /\ last' = [a |-> "Reload", call |-> last.call, held |-> last.held, kind |-> last.kind]
+
+\* after the reload the client cancels its streaming call, then makes it again
+MCCancel ==
+  /\ phase = 3 /\ phase' = 9
+  /\ DoCancel(last.call, last.held)
+  /\ last' = [a |-> "Cancel", call |-> last.call, held |-> last.held]
 
 \* after a call, ANOTHER client makes the same request on the other user stream (a decision made for one
 \* (client, resource, action) must not leak to a different triple)
@@ -91,22 +98,24 @@ MCOther(call) ==
   /\ call = [last.call EXCEPT !.c = call.c, !.s = call.s]
   /\ call.m \notin GroupMethods      \* their resource is the one group, whatever stream the request names
   /\ DoCall(call)
-  /\ last' = [a |-> "Call", call |-> call]
+  /\ last' = [a |-> "Call", call |-> call, held |-> FALSE]
 
 MCEdit ==
   /\ phase \in {1, 7} /\ phase' = 2
   /\ enforcer
   /\ DeepReload \/ policy = {} \/ policy = Entries
-  /\ DoEditPolicy(Toggle(policyFile, EntryOf(last.call)))
-  /\ \E how \in {"inplace", "rename"} : last' = [a |-> "EditPolicy", call |-> last.call, how |-> how]
+  \* (after a write that stopped half-way the corrected file holds the revision that was being written)
+  /\ DoEditPolicy(IF phase = 7 /\ last.kind = "torn" THEN policyFile ELSE Toggle(policyFile, EntryOf(last.call)))
+  /\ \E how \in {"inplace", "rename"} : last' = [a |-> "EditPolicy", call |-> last.call, held |-> last.held, how |-> how]
 
 MCReload ==
   /\ phase = 2 /\ phase' = 3
   /\ DoReload
-  /\ last' = [a |-> "Reload", call |-> last.call]
+  /\ last' = [a |-> "Reload", call |-> last.call, held |-> last.held]
 
 MCNext ==
-  \/ (phase \in {0, 2, 3}) /\ \E call \in CallChoices : MCCall(call)
+  \/ (phase \in {0, 2, 3, 9}) /\ \E call \in CallChoices : MCCall(call)
+  \/ MCCancel
   \/ MCEdit
   \/ MCReload
   \/ (phase = 1 /\ last.call.s \in UserStreams) /\
@@ -116,6 +125,9 @@ MCNext ==
 
 MCSpec == MCInit /\ [][MCNext]_mcvars
 
+\* design-check view: how the operator put the revision in place (`how`) is an instruction to the driver only
+MCView == <<vars, phase, IF "how" \in DOMAIN last THEN [last EXCEPT !.how = "-"] ELSE last>>
+
 \* (GroupAuthz = FALSE is the pinned variant of the group handlers: TLC then reports the unauthorised group call)
 StepOK ==
   LET a == last' IN
@@ -123,6 +135,7 @@ StepOK ==
     [] a.a = "EditPolicy" -> P_Edit
     [] a.a = "Reload" -> P_Reload
     [] a.a = "BreakFile" -> P_Edit
+    [] a.a = "Cancel" -> policy' = policy
     [] OTHER -> TRUE
 StepsOK == [][StepOK]_mcvars
 =============================================================================
